@@ -55,6 +55,28 @@ Definition call_impl (ev : evaluator) (f : fimpl) (args : list value) (off : Z) 
       ret (VArr [VNum (PosInt id); VArr args]) off
   end.
 
+(** The three loops of the interpreter, over an evaluator for the element. *)
+Fixpoint proj_loop (ev1 : value -> Z -> res (value * Z)) (es : list value) (acc : list value) (o : Z) : res (value * Z) :=
+  match es with
+  | [] => Ok (VArr (rev acc), o)
+  | e :: es' =>
+      let* (cur, o') := ev1 e o in
+      if is_null cur then proj_loop ev1 es' acc o' else proj_loop ev1 es' (cur :: acc) o'
+  end.
+
+Fixpoint eval_list (evd : ast -> Z -> res (value * Z)) (es : list ast) (acc : list value) (o : Z) : res (list value * Z) :=
+  match es with
+  | [] => Ok (rev acc, o)
+  | e :: es' => let* (v, o') := evd e o in eval_list evd es' (v :: acc) o'
+  end.
+
+Fixpoint eval_kvs (evd : ast -> Z -> res (value * Z)) (kvs : list (str * ast)) (acc : list (str * value)) (o : Z)
+  : res (list (str * value) * Z) :=
+  match kvs with
+  | [] => Ok (acc, o)
+  | (k, e) :: kvs' => let* (v, o') := evd e o in eval_kvs evd kvs' (obj_insert acc k v) o'
+  end.
+
 Fixpoint interp (fuel : nat) (rt : registry) (data : value) (node : ast) (off : Z) {struct fuel} : res (value * Z) :=
   match fuel with
   | O => OOF
@@ -92,14 +114,7 @@ Fixpoint interp (fuel : nat) (rt : registry) (data : value) (node : ast) (off : 
       | AProjection l r =>
           let* (lv, o1) := ev data l off in
           match lv with
-          | VArr elems =>
-              (fix go (es : list value) (acc : list value) (o : Z) : res (value * Z) :=
-                 match es with
-                 | [] => Ok (VArr (rev acc), o)
-                 | e :: es' =>
-                     let* (cur, o') := ev e r o in
-                     if is_null cur then go es' acc o' else go es' (cur :: acc) o'
-                 end) elems [] o1
+          | VArr elems => proj_loop (fun e o => ev e r o) elems [] o1
           | _ => Ok (VNull, o1)
           end
       | AFlatten n =>
@@ -111,27 +126,12 @@ Fixpoint interp (fuel : nat) (rt : registry) (data : value) (node : ast) (off : 
           end
       | AMultiList es =>
           if is_null data then Ok (VNull, off)
-          else
-            (fix go (es : list ast) (acc : list value) (o : Z) : res (value * Z) :=
-               match es with
-               | [] => Ok (VArr (rev acc), o)
-               | e :: es' => let* (v, o') := ev data e o in go es' (v :: acc) o'
-               end) es [] off
+          else let* (vs, o1) := eval_list (fun e o => ev data e o) es [] off in Ok (VArr vs, o1)
       | AMultiHash kvs =>
           if is_null data then Ok (VNull, off)
-          else
-            (fix go (kvs : list (str * ast)) (acc : list (str * value)) (o : Z) : res (value * Z) :=
-               match kvs with
-               | [] => Ok (VObj acc, o)
-               | (k, e) :: kvs' => let* (v, o') := ev data e o in go kvs' (obj_insert acc k v) o'
-               end) kvs [] off
+          else let* (m, o1) := eval_kvs (fun e o => ev data e o) kvs [] off in Ok (VObj m, o1)
       | AFunction foff name args =>
-          let* (fn_args, _) :=
-            (fix go (es : list ast) (acc : list value) (o : Z) : res (list value * Z) :=
-               match es with
-               | [] => Ok (rev acc, o)
-               | e :: es' => let* (v, o') := ev data e o in go es' (v :: acc) o'
-               end) args [] off in
+          let* (fn_args, _) := eval_list (fun e o => ev data e o) args [] off in
           (* ctx.offset = offset *)
           match rt_get rt name with
           | Some fi => call_impl ev fi fn_args foff
